@@ -79,7 +79,7 @@ func validateHeader(wf *WarcFields, version *WarcVersion, validation *Validation
 				}
 			}
 
-			if !def.repeatable && len(wf.GetAll(name)) > 1 {
+			if !def.repeatable && wf.occursMoreThanOnce(name) {
 				switch opts.errSpec {
 				case ErrWarn:
 					validation.addError(newHeaderFieldError(name, "field occurs more than once"))
